@@ -127,9 +127,26 @@ pub fn run(seed: u64, thorough: bool) {
         // the valid buffer again; truncated; padded; with every level-word bit flipped; single bit flips elsewhere
         keygen_case(shape, &sd, &valid, "valid_reuse", &base, kc, "");
         sign_case(shape, &blob, &msg, &valid, "valid_reuse", &sbase, sc, "");
-        for cut in [1usize, 3, 4, 5, full / 2, full - 1] {
+        // every truncation of the valid buffer for the first shape; for the others the lengths around
+        // the header, the end of the cached layers and the end of the MAC
+        let cuts: Vec<usize> = if si == 0 || thorough {
+            (0..full).collect()
+        } else {
+            let mut c = vec![1usize, 3, 4, 5, full / 2];
+            for k in 0..=6 {
+                c.push(full.saturating_sub(n + k));
+                c.push((full + k).saturating_sub(n).min(full - 1));
+            }
+            c.push(full - 1);
+            c.sort();
+            c.dedup();
+            c
+        };
+        for cut in cuts {
             keygen_case(shape, &sd, &valid[..cut.min(full)], "valid_truncated", &base, kc, "");
-            sign_case(shape, &blob, &msg, &valid[..cut.min(full)], "valid_truncated", &sbase, sc, "");
+            if si != 0 || cut % 3 == 0 || cut + n + 6 >= full {
+                sign_case(shape, &blob, &msg, &valid[..cut.min(full)], "valid_truncated", &sbase, sc, "");
+            }
         }
         let mut padded = valid.clone();
         padded.extend_from_slice(&[0u8; 7]);
